@@ -188,6 +188,13 @@ impl Endpoint {
                 for &version in &self.config.supported_versions {
                     buf.write(version);
                 }
+                if buf.len() > 3 * datagram_len {
+                    // Nothing validates `remote`: never answer with more than three times what it
+                    // sent, or tiny spoofed datagrams turn us into an amplifier
+                    debug!("dropping {datagram_len} byte packet with unsupported version");
+                    buf.clear();
+                    return None;
+                }
                 return Some(DatagramEvent::Response(Transmit {
                     destination: remote,
                     ecn: None,
